@@ -1124,8 +1124,10 @@ func (m *Nitro) LoadFromDisk(dir string, concurr int, callb ItemCallback) (*Snap
 				for {
 					itm, err := r.ReadItem()
 					if err != nil {
+						// Give up on this shard only: the worker has to keep
+						// draining the channel or the producer blocks forever.
 						errors[shard] = err
-						return
+						break loop
 					}
 
 					if itm == nil {
@@ -1214,7 +1216,7 @@ func (m *Nitro) LoadFromDisk(dir string, concurr int, callb ItemCallback) (*Snap
 						itm, err := r.ReadItem()
 						if err != nil {
 							errors[shard] = err
-							return
+							break loop
 						}
 
 						if itm == nil {
